@@ -28,6 +28,9 @@ def run(ctx):
     SK.w4_pack_iteration(ctx)
     E.e10_memo_keyed_by_arguments(ctx)
     ctx.floor("W4", 1)
+    # the rules of the specification being expanded are handed over as a cache: found there, not made again
+    E.e12_cache_before_recompute(ctx)
+    ctx.floor("E12", 1)
     X.x6_fallback_contract(ctx)
     # the expansion extracts through the forest extractor, which replays the offered pack
     from ..engines import provenance as PV
@@ -43,3 +46,9 @@ def run(ctx):
     ctx.floor("X3", 6)
     ctx.floor("X4", 1)
     ctx.floor("X5", 2)
+    # expand_comb_class takes a class or its label: brought to a class before the rules are sifted with it
+    from ..engines import totality as TT
+    TT.t14_normalise_before_use(ctx, ("specification",))
+    ctx.floor("T14", 2)
+    X.x7_pack_refusal_is_what_is_caught(ctx)
+    ctx.floor("X7", 1)
